@@ -94,6 +94,78 @@ theorem C04_row_concat (c : List Sample) (cs : List (List Sample)) (hc : ChunkOK
 example : drain (csIt [⟨10, 1⟩, ⟨20, 2⟩, ⟨30, 3⟩] [[⟨20, 2⟩, ⟨30, 3⟩, ⟨40, 4⟩], [⟨35, 9⟩, ⟨50, 5⟩]])
     = [⟨10, 1⟩, ⟨20, 2⟩, ⟨30, 3⟩, ⟨40, 4⟩, ⟨50, 5⟩] := by decide
 
+/-- `mapM` over rows that all succeed, keeping what each result is good for -/
+theorem mapM_rows {f : List RChunk → Option AnyIt} {g : List RChunk → List Sample} :
+    ∀ (rows : List (List RChunk)), (∀ row ∈ rows, ∃ it, f row = some it ∧ GoodN it (g row)) →
+    ∃ ps : List (AnyIt × List Sample), rows.mapM f = some (ps.map (·.1)) ∧ ps.map (·.2) = rows.map g ∧
+      ps.length = rows.length ∧ ∀ p ∈ ps, GoodN p.1 p.2 := by
+  intro rows
+  induction rows with
+  | nil => intro _; exact ⟨[], rfl, rfl, rfl, by simp⟩
+  | cons row rows ih =>
+    intro h
+    obtain ⟨it, hit, hg⟩ := h row (by simp)
+    obtain ⟨ps, h1, h2, h3, h4⟩ := ih (fun r hr => h r (by simp [hr]))
+    refine ⟨(it, g row) :: ps, ?_, by simp [h2], by simp [h3], ?_⟩
+    · simp [List.mapM_cons, hit, h1]
+    · intro p hp
+      rcases List.mem_cons.mp hp with rfl | hp
+      · exact hg
+      · exact h4 p hp
+
+/-- **The querier side is a pure function** (for a query range that covers the chunks it gets):
+    `overlapSplit`, `chunkSeriesIterator`, `boundedSeriesIterator` and the penalty iterators
+    together compute the left fold of the pure penalty merge `pm2` over the rows' unions — no
+    panic, no sample lost to loop fuel.  The F04 loss and the partial property are therefore
+    statements about `pm2` and `overlapSplit` alone. -/
+theorem C04_select_refines (l : RSeries) (qmint qmaxt : Int)
+    (hne : proxyChunks qmint qmaxt (l.reps.flatMap (·.chunks)) ≠ [])
+    (hok : ∀ c ∈ proxyChunks qmint qmaxt (l.reps.flatMap (·.chunks)),
+      ChunkOK c.samples ∧ ∀ x ∈ c.samples, qmint ≤ x.t ∧ x.t ≤ qmaxt) :
+    selectDedup true qmint qmaxt l = some (some (pmFoldL
+      ((overlapSplit (proxyChunks qmint qmaxt (l.reps.flatMap (·.chunks)))).map
+        fun row => unionFrom 0 (row.map (·.samples))))) := by
+  unfold selectDedup
+  generalize hcs : proxyChunks qmint qmaxt (l.reps.flatMap (·.chunks)) = cs at hne hok
+  have hemp : cs.isEmpty = false := by
+    cases cs with
+    | nil => exact absurd rfl hne
+    | cons _ _ => rfl
+  simp only [hemp, Bool.false_eq_true, if_false]
+  obtain ⟨hrows, hperm⟩ := overlapSplit_partition cs
+  -- every row gives a good iterator
+  have hrow : ∀ row ∈ overlapSplit cs, ∃ it,
+      chunkSeriesIt qmint qmaxt (row.map (·.samples)) = some it ∧
+      GoodN it (unionFrom 0 (row.map (·.samples))) := by
+    intro row hr
+    obtain ⟨_, hrne⟩ := hrows row hr
+    have hmem : ∀ c ∈ row, c ∈ cs := fun c hc =>
+      hperm.subset (List.mem_flatten.mpr ⟨row, hr, hc⟩)
+    cases row with
+    | nil => exact absurd rfl hrne
+    | cons c row' =>
+      simp only [List.map_cons]
+      apply chunkSeriesIt_good
+      · exact (hok c (hmem c (by simp))).1
+      · intro d hd
+        obtain ⟨c', hc', rfl⟩ := List.mem_map.mp hd
+        exact (hok c' (hmem c' (by simp [hc']))).1
+      · intro d hd x hx
+        rcases List.mem_cons.mp hd with rfl | hd
+        · exact (hok c (hmem c (by simp))).2 x hx
+        · obtain ⟨c', hc', rfl⟩ := List.mem_map.mp hd
+          exact (hok c' (hmem c' (by simp [hc']))).2 x hx
+  obtain ⟨ps, h1, h2, h3, h4⟩ := mapM_rows (f := fun row => chunkSeriesIt qmint qmaxt (row.map (·.samples)))
+    (g := fun row => unionFrom 0 (row.map (·.samples))) (overlapSplit cs) hrow
+  have hpsne : ps ≠ [] := by
+    intro he
+    rw [he] at h3
+    have : overlapSplit cs = [] := List.length_eq_zero_iff.mp h3.symm
+    rw [this] at hperm
+    exact hne (List.Perm.eq_nil (hperm.symm))
+  obtain ⟨it, hit, hg⟩ := foldIts_good ps hpsne h4
+  simp only [h1, hit, drainChecked_goodN hg, h2]
+
 /-! ### F04: overlapping chunks inside a replica make the penalty window swallow samples -/
 
 def f04S : List Sample := [⟨32456, 1⟩, ⟨94057, 2⟩, ⟨154387, 3⟩, ⟨186226, 4⟩]
